@@ -123,6 +123,7 @@ enum Opnd {
     Outer(usize),
     Abs(usize),
     Loc(usize),
+    Slot(usize),
 }
 
 #[derive(Clone, Debug)]
@@ -149,6 +150,10 @@ enum Instr {
     Cutoff(Opnd, CutK),
     Expert(usize, i64),
     MapOp(MapOp),
+    Publish(usize, Opnd),
+    ScopedVar(V),
+    MemoCall(usize, i64),
+    PerKey(String, String, usize, Opnd),
 }
 
 #[derive(Clone, Debug)]
@@ -189,6 +194,8 @@ struct Defs {
     bodies: HashMap<usize, (usize, Vec<Template>)>,
     hdls: HashMap<usize, Vec<Effect>>,
     mfns: HashMap<usize, [i64; 5]>,
+    memo_defs: HashMap<usize, Template>,
+    pks: HashMap<usize, Template>,
 }
 
 fn idx(pfx: &str, s: &str) -> Option<usize> {
@@ -205,6 +212,9 @@ fn parse_opnd(s: &str) -> Option<Opnd> {
     }
     if let Some(r) = s.strip_prefix('#') {
         return r.parse().ok().map(Opnd::Abs);
+    }
+    if let Some(r) = s.strip_prefix("@s") {
+        return r.parse().ok().map(Opnd::Slot);
     }
     None
 }
@@ -246,6 +256,10 @@ fn parse_instr(t: &[&str]) -> Option<Instr> {
         ["mapop", "merge", ty, m, x, y] => Some(Instr::MapOp(MapOp::Merge(
             ty.to_string(), idx("M", m)?, parse_opnd(x)?, parse_opnd(y)?))),
         ["mapop", "part", m, x] => Some(Instr::MapOp(MapOp::Part(idx("M", m)?, parse_opnd(x)?))),
+        ["pub", sl, o] => Some(Instr::Publish(idx("s", sl)?, parse_opnd(o)?)),
+        ["scopedvar", x] => parse_val(x).map(Instr::ScopedVar),
+        ["memocall", m, k] => Some(Instr::MemoCall(idx("m", m)?, k.parse().ok()?)),
+        ["perkey", ty, cut, fam, x] => Some(Instr::PerKey(ty.to_string(), cut.to_string(), idx("P", fam)?, parse_opnd(x)?)),
         ["expert", "sumdeps", m] => Some(Instr::Expert(0, m.parse().ok()?)),
         ["expert", "cbsum", m] => Some(Instr::Expert(1, m.parse().ok()?)),
         _ => None,
@@ -314,6 +328,7 @@ thread_local! {
 
 thread_local! {
     static COUNTDOWN: Cell<Option<usize>> = Cell::new(None);
+    static CYCLE_MISUSE: Cell<bool> = Cell::new(false);
 }
 
 /// fault injection (C13): every user closure handed to the crate calls this first
@@ -355,7 +370,12 @@ pub struct Ctx {
     handles: RefCell<HashMap<usize, Incr<V>>>,
     pair_handles: RefCell<HashMap<usize, Incr<(V, V)>>>,
     top: RefCell<Vec<usize>>,
+    /// how many top-level results name each node (a memoised call can return an existing node)
+    handle_counts: RefCell<HashMap<usize, usize>>,
     experts: RefCell<HashMap<usize, Rc<ExpertHandle>>>,
+    slots: RefCell<HashMap<usize, usize>>,
+    slot_handles: RefCell<HashMap<usize, Incr<V>>>,
+    memos: RefCell<HashMap<usize, Rc<RefCell<Box<dyn FnMut(i64) -> Incr<V>>>>>>,
     deps: RefCell<Vec<Option<Dependency<V>>>>,
     vars: RefCell<Vec<Option<Var<V>>>>,
     var_handles: RefCell<Vec<usize>>,
@@ -419,11 +439,16 @@ fn st(ctx: &C) -> IncrState {
 }
 
 fn handle(ctx: &C, n: usize) -> Incr<V> {
-    ctx.handles
-        .borrow()
-        .get(&n)
-        .unwrap_or_else(|| panic!("verif-harness: no handle for n{}", n))
-        .clone()
+    if let Some(h) = ctx.handles.borrow().get(&n) {
+        return h.clone();
+    }
+    let slot = ctx.slots.borrow().iter().find(|(_, v)| **v == n).map(|(k, _)| *k);
+    if let Some(k) = slot {
+        if let Some(h) = ctx.slot_handles.borrow().get(&k) {
+            return h.clone();
+        }
+    }
+    panic!("verif-harness: no handle for n{}", n)
 }
 
 fn register(ctx: &C, i: &Incr<V>) -> usize {
@@ -587,6 +612,11 @@ fn resolve_ix(ctx: &C, loc: &[usize], o: &Opnd) -> usize {
             .get(*k)
             .unwrap_or_else(|| panic!("verif-harness: no top-level node n{}", k)),
         Opnd::Abs(n) => *n,
+        Opnd::Slot(k) => *ctx
+            .slots
+            .borrow()
+            .get(k)
+            .unwrap_or_else(|| panic!("verif-harness: slot s{} is empty", k)),
         Opnd::Loc(j) => loc[*j],
     }
 }
@@ -815,6 +845,27 @@ fn elab_instr(ctx: &C, loc: &[usize], lhs: &V, i: &Instr) -> Option<usize> {
             Some(ix)
         }
         Instr::MapOp(op) => Some(elab_mapop(ctx, loc, op)),
+        Instr::Publish(sl, o) => {
+            let n = resolve_ix(ctx, loc, o);
+            let h = handle(ctx, n);
+            ctx.slots.borrow_mut().insert(*sl, n);
+            let old = ctx.slot_handles.borrow_mut().insert(*sl, h);
+            drop(old);
+            None
+        }
+        Instr::ScopedVar(v) => {
+            let var = state.var_current_scope(v.clone());
+            let ix = register(ctx, &var.watch());
+            ctx.vars.borrow_mut().push(Some(var));
+            ctx.var_handles.borrow_mut().push(1);
+            Some(ix)
+        }
+        Instr::MemoCall(m, key) => {
+            let f = memo_fn(ctx, *m);
+            let r = (f.borrow_mut())(*key);
+            Some(register(ctx, &r))
+        }
+        Instr::PerKey(ty, cut, fam, x) => Some(elab_perkey(ctx, loc, ty, cut, *fam, x)),
         Instr::Cutoff(n, c) => {
             let node = resolve(ctx, loc, n);
             let nix = node.verif_index();
@@ -854,7 +905,7 @@ fn as_btree(v: &V) -> BTreeMap<i64, i64> {
 }
 
 fn opt(x: Option<i64>) -> String {
-    x.map_or("-".to_string(), |v| v.to_string())
+    x.map_or("()".to_string(), |v| v.to_string())
 }
 
 /// the user function families (same as `mapFn*` in IncrVerif/Engine/History.lean)
@@ -1018,8 +1069,57 @@ fn elab_mapop(ctx: &C, loc: &[usize], op: &MapOp) -> usize {
     register(ctx, &out)
 }
 
+fn elab_perkey(ctx: &C, loc: &[usize], ty: &str, cut: &str, fam: usize, x: &Opnd) -> usize {
+    let input = resolve(ctx, loc, x);
+    let tmpl = ctx.defs.borrow().pks.get(&fam).cloned().expect("verif-harness: pk not defined");
+    let ctx2 = ctx.clone();
+    let f = move |key: &i64, inc: Incr<V>| -> Incr<V> {
+        tick();
+        let ix = register(&ctx2, &inc);
+        log(format!("note pk P{} key {} node n{}", fam, key, ix));
+        let r = elab_template_with(&ctx2, &tmpl, &V::Int(*key), vec![ix]);
+        // the per-key input handle dies with the closure call unless the built graph references it
+        let h = ctx2.handles.borrow_mut().remove(&ix);
+        drop(h);
+        r
+    };
+    let cutoff: Option<Cutoff<V>> = match cut {
+        "never" => Some(Cutoff::Never),
+        "always" => Some(Cutoff::Always),
+        "eq" => Some(Cutoff::PartialEq),
+        _ => None,
+    };
+    let wrap = |v: &V| -> BTreeMap<i64, V> { as_btree(v).into_iter().map(|(k, x)| (k, V::Int(x))).collect() };
+    let out: Incr<V> = match ty {
+        "bt" => {
+            let a = input.map(move |v: &V| wrap(v));
+            let o = match cutoff {
+                Some(c) => a.incr_mapi_cutoff(f, c),
+                None => a.incr_mapi_(f),
+            };
+            o.map(|m: &BTreeMap<i64, V>| V::Map(Rc::new(m.iter().map(|(k, v)| (*k, to_int(v))).collect())))
+        }
+        _ => {
+            let a = input.map(move |v: &V| wrap(v).into_iter().collect::<OrdMap<i64, V>>());
+            let o = match cutoff {
+                Some(c) => IncrOrdMap::incr_mapi_cutoff(&a, f, c),
+                None => IncrOrdMap::incr_mapi_(&a, f),
+            };
+            o.map(|m: &OrdMap<i64, V>| V::Map(Rc::new(m.iter().map(|(k, v)| (*k, to_int(v))).collect())))
+        }
+    };
+    register(ctx, &out)
+}
+
 fn elab_template(ctx: &C, t: &Template, lhs: &V) -> Incr<V> {
-    let mut loc: Vec<usize> = vec![];
+    elab_template_with(ctx, t, lhs, vec![])
+}
+
+/// `init`: nodes that are the closure's first locals (`%0`, …), e.g. the per-key input of a per-key function
+fn elab_template_with(ctx: &C, t: &Template, lhs: &V, init: Vec<usize>) -> Incr<V> {
+    let before: std::collections::HashSet<usize> = ctx.handles.borrow().keys().copied().collect();
+    let before_p: std::collections::HashSet<usize> = ctx.pair_handles.borrow().keys().copied().collect();
+    let mut loc: Vec<usize> = init;
     for i in &t.instrs {
         if let Some(n) = elab_instr(ctx, &loc, lhs, i) {
             loc.push(n);
@@ -1027,14 +1127,35 @@ fn elab_template(ctx: &C, t: &Template, lhs: &V) -> Incr<V> {
     }
     let ret = resolve(ctx, &loc, &t.ret);
     // handles on the nodes built by the closure die with the closure call, as in ordinary user code:
-    // what stays alive is what the returned node (or the engine) still references
+    // what stays alive is what the returned node (or the engine, or a published slot) still references
     for n in &loc {
-        let h = ctx.handles.borrow_mut().remove(n);
-        let p = ctx.pair_handles.borrow_mut().remove(n);
-        drop(h);
-        drop(p);
+        if !before.contains(n) {
+            let h = ctx.handles.borrow_mut().remove(n);
+            drop(h);
+        }
+        if !before_p.contains(n) {
+            let p = ctx.pair_handles.borrow_mut().remove(n);
+            drop(p);
+        }
     }
     ret
+}
+
+fn memo_fn(ctx: &C, m: usize) -> Rc<RefCell<Box<dyn FnMut(i64) -> Incr<V>>>> {
+    if let Some(f) = ctx.memos.borrow().get(&m) {
+        return f.clone();
+    }
+    // created on first use at top level: the creation scope is the scope current at that moment
+    let tmpl = ctx.defs.borrow().memo_defs.get(&m).cloned().expect("verif-harness: memo not defined");
+    let ctx2 = ctx.clone();
+    let f = st(ctx).weak_memoize_fn(move |key: i64| {
+        tick();
+        log(format!("note memo m{} invoked {}", m, key));
+        elab_template(&ctx2, &tmpl, &V::Int(key))
+    });
+    let boxed: Rc<RefCell<Box<dyn FnMut(i64) -> Incr<V>>>> = Rc::new(RefCell::new(Box::new(f)));
+    ctx.memos.borrow_mut().insert(m, boxed.clone());
+    boxed
 }
 
 // ------------------------------------------------------------------------------------------------
@@ -1185,11 +1306,51 @@ fn action(ctx: &C, toks: &[&str]) -> String {
             drop(ph);
             let hs = std::mem::take(&mut *ctx.handles.borrow_mut());
             drop(hs);
+            let sh = std::mem::take(&mut *ctx.slot_handles.borrow_mut());
+            drop(sh);
+            let ms = std::mem::take(&mut *ctx.memos.borrow_mut());
+            drop(ms);
             let st = ctx.state.borrow_mut().take();
             drop(st);
+            if CYCLE_MISUSE.with(|c| c.get()) {
+                "ok live=cycle".into()
+            } else {
+                format!("ok live={}", incremental::verif_live_nodes())
+            }
+        }
+        ["expectpanic", cls @ ..] => {
+            if cls.contains(&"cyclic") {
+                // a dependency cycle closed through binds is a cycle of strong references: it leaks by construction
+                CYCLE_MISUSE.with(|c| c.set(true));
+            }
             "ok".into()
         }
-        ["expectpanic", ..] => "ok".into(),
+        ["drophandle", n] => {
+            let ix = resolve_ix(ctx, &[], &parse_opnd(n).unwrap());
+            let left = {
+                let mut hc = ctx.handle_counts.borrow_mut();
+                match hc.get_mut(&ix) {
+                    Some(c) if *c > 0 => {
+                        *c -= 1;
+                        Some(*c)
+                    }
+                    _ => None,
+                }
+            };
+            match left {
+                None => "noop".into(),
+                Some(0) => {
+                    let h = ctx.handles.borrow_mut().remove(&ix);
+                    let p = ctx.pair_handles.borrow_mut().remove(&ix);
+                    let e = ctx.experts.borrow_mut().remove(&ix);
+                    drop(h);
+                    drop(p);
+                    drop(e);
+                    "ok".into()
+                }
+                Some(_) => "ok".into(),
+            }
+        }
         ["arm", k] => {
             COUNTDOWN.with(|c| c.set(Some(k.parse().unwrap())));
             "ok".into()
@@ -1208,6 +1369,7 @@ fn action(ctx: &C, toks: &[&str]) -> String {
             Some(i) => match elab_instr(ctx, &[], &V::Unit, &i) {
                 Some(n) => {
                     ctx.top.borrow_mut().push(n);
+                    *ctx.handle_counts.borrow_mut().entry(n).or_insert(0) += 1;
                     format!("ok #{}", n)
                 }
                 None => "ok".into(),
@@ -1254,7 +1416,11 @@ pub fn run() {
         handles: RefCell::new(HashMap::new()),
         pair_handles: RefCell::new(HashMap::new()),
         top: RefCell::new(vec![]),
+        handle_counts: RefCell::new(HashMap::new()),
         experts: RefCell::new(HashMap::new()),
+        slots: RefCell::new(HashMap::new()),
+        slot_handles: RefCell::new(HashMap::new()),
+        memos: RefCell::new(HashMap::new()),
         deps: RefCell::new(vec![]),
         vars: RefCell::new(vec![]),
         var_handles: RefCell::new(vec![]),
@@ -1314,6 +1480,12 @@ pub fn run() {
                         [a.parse().unwrap(), b.parse().unwrap(), mm.parse().unwrap(), r.parse().unwrap(), c.parse().unwrap()],
                     );
                 }
+                ["memo", m, rest @ ..] => {
+                    d.memo_defs.insert(idx("m", m).unwrap(), parse_alt(&rest.join(" ")).expect("memo template"));
+                }
+                ["pk", pk, rest @ ..] => {
+                    d.pks.insert(idx("P", pk).unwrap(), parse_alt(&rest.join(" ")).expect("pk template"));
+                }
                 ["hdl", h, rest @ ..] => {
                     d.hdls.insert(idx("h", h).unwrap(), parse_effects(&rest.join(" ")).expect("effects"));
                 }
@@ -1321,6 +1493,10 @@ pub fn run() {
             }
         }
         if is_def {
+            if t[0] == "memo" {
+                // the memoised function is created here, at top level: its creation scope is Top
+                let _ = memo_fn(&ctx, idx("m", t[1]).unwrap());
+            }
             continue;
         }
         LOG.with(|l| l.borrow_mut().clear());
@@ -1358,7 +1534,7 @@ pub fn run() {
         let state = ctx.state.borrow().as_ref().cloned();
         if let Some(state) = state {
             for l in state.verif_snapshot() {
-                let l = l.replace(", ", ",");
+                let l = l.replace(", ", ",").replace(": ", ":");
                 writeln!(out, "{} {}", ai, l).unwrap();
             }
             for l in state.verif_audit() {
